@@ -16,7 +16,10 @@ RULE = ("(1) exhaustive introspection: every object of pdpy11.insns.instructions
         "that must be refused (%8, ac4/ac5 in a 2-bit field, values beyond 16 bits / the inline field, wrong operand class or count), "
         "at several link addresses incl. the top of memory; plus a near-miss-name stream (labels/constants whose names start with or contain a "
         "register/accumulator name -- ac1buf ac10 ac5x ac ac6 r0x r8 r10 spx pcx sp1 xr0, both cases -- used as relative, @relative, #, @#, "
-        "index base and parenthesised operands of CPU and FP11 instructions in every operand position: Spec says ordinary symbol) and a "
+        "index base and parenthesised operands of CPU and FP11 instructions in every operand position: Spec says ordinary symbol), the same "
+        "with symbols/labels named exactly ac0..ac5 (both cases, defined before/after/as label) in every operand position of CPU "
+        "instructions, branches, inline numbers (ordinary symbol: Spec.token_acc), FP11 instructions (accumulator, shadowing the symbol) "
+        "and .word/.byte (value) and a "
         "`.repeat N { insn }` stream with compound index expressions (a+b(Rn), @a+b(Rn), -a(Rn), ^Cx(Rn)) where every copy is judged; quick tier: each form of each position once with a seeded partner, "
         "thorough tier: full cross product of the canonical spellings for two-operand mnemonics. "
         "Each case carries the implementation's outcome and words; Coq judges correspondence (model = implementation) and the "
@@ -35,7 +38,9 @@ LEVEL_NOTE = ("Trusted: Coq kernel + vm_compute, tools/translate.py + tools/gens
               "tied by the end-to-end sweep only. An explicitly written (pc)+/@(pc)+ is outside encode_decode (C01_pc_autoinc_partial). "
               "Print Assumptions: closed under the global context for every theorem.")
 TECHNIQUE = "Coq proof over regenerated table (exhaustive vm_compute + structural lemmas) + exhaustive model/implementation correspondence"
-ASSUME = ["pdpy11's 'signed' inline number convention (-2^n < v < 2^n, stored mod 2^n) for emt/trap and 16-bit operand values is intended",
+ASSUME = ["an abstract operand OAcc n stands for the token acN in a floating position or with no user symbol of that name defined; a defined "
+          "symbol named acN elsewhere is represented as the ordinary expression (Spec.token_acc, mirrored by the sweep's printer)",
+          "pdpy11's 'signed' inline number convention (-2^n < v < 2^n, stored mod 2^n) for emt/trap and 16-bit operand values is intended",
           "the 1801VM2 / LSI-11 / maintenance opcodes in Spec/PDP11.v are as in the repository (no independent source)"]
 TRUSTED = ["tools/insn_cases.py: printer from abstract operands to source text", "tools/gens/gen_insns.py: source-shape pins of insns.py"]
 
@@ -144,13 +149,19 @@ def insn_len(stubs, ops):
 
 
 # names that merely start with / contain a register or accumulator name: ordinary symbols
+# symbols named exactly like accumulators: accumulators only in floating positions (Spec.token_acc)
+ACC_NAMED = ["ac0", "ac1", "ac2", "ac3", "ac4", "ac5", "AC3", "Ac1", "aC5"]
 NEAR_MISS = ["ac1buf", "ac10", "ac5x", "ac0x", "ac4z", "ac3tmp", "ac", "ac6", "ac7", "r0x", "r8", "r10", "r77", "spx", "pcx", "sp1", "pc0",
              "xr0", "xac1", "AC1BUF", "Ac2x", "R0X", "SPX", "R8", "AC10"]
 
 
-def near_miss_forms(name, v, r):
-    """memory operands built on the symbol `name` whose value is v"""
-    return [IC.Form(("ORel", v), name, key="nm:rel"), IC.Form(("ORelDef", v), "@" + name, key="nm:@rel"),
+def near_miss_forms(name, v, r, stub_cls=None):
+    """memory operands built on the symbol `name` whose value is v.  A symbol named acN written bare is the
+    accumulator where the stub is a floating one and the ordinary symbol elsewhere (mirror of Spec.token_acc)"""
+    bare = ("ORel", v)
+    if name.lower() in ACC_NAMED[:6] and stub_cls in ("FP11RMOperandStub", "FP11AccumulatorOperandStub"):
+        bare = ("OAcc", int(name[2]))
+    return [IC.Form(bare, name, key="nm:rel"), IC.Form(("ORelDef", v), "@" + name, key="nm:@rel"),
             IC.Form(("OImm", v), "#" + name, key="nm:#"), IC.Form(("OAbs", v), "@#" + name, key="nm:@#"),
             IC.Form(("OIndex", v, r), "%s(%s)" % (name, IC.REGNAMES[r]), key="nm:X(r)"),
             IC.Form(("OIndexDef", v, r), "@%s(%s)" % (name, IC.REGNAMES[r]), key="nm:@X(r)"),
@@ -188,6 +199,7 @@ def near_miss_cases(intro, rng, tier):
         stubs = by[m]
         for pos in range(len(stubs)):
             names = NEAR_MISS if tier == "thorough" else rng.sample(NEAR_MISS[:19], 9) + rng.sample(NEAR_MISS[19:], 2)
+            names = names + (ACC_NAMED if tier == "thorough" else rng.sample(ACC_NAMED[:6], 4) + rng.sample(ACC_NAMED[6:], 1))
             for name in names:
                 r = rng.randrange(7)
                 base = rng.choice([0o1000, 0o400, 0o100000])
@@ -202,7 +214,7 @@ def near_miss_cases(intro, rng, tier):
                     how, pad, addr = "const-before", 0, base
                 else:
                     v = base if how == "label" else rng.choice([0o100, 0o1000, 0o177776, 4, 0o2002])
-                forms = near_miss_forms(name, v, r)
+                forms = near_miss_forms(name, v, r, stubs[pos][0])
                 if tier != "thorough":
                     forms = [forms[0]] + rng.sample(forms[1:], 3)
                 for f in forms:
@@ -222,6 +234,38 @@ def near_miss_cases(intro, rng, tier):
                     c.src = "\n".join(lines) + "\n"
                     cases.append(c)
     return cases
+
+
+def acc_named_data(rep, rng):
+    """symbols named ac0..ac5 in data directives are ordinary symbols: .word / .byte store their value.
+    (directives are C06's; this only makes sure the accumulator names do not leak into expressions)"""
+    jobs, meta = [], []
+    for name in ACC_NAMED:
+        v = rng.choice([5, 0o1234, 0o177776, 0o200])
+        for how in ("before", "after", "label"):
+            for d, width in ((".word", 2), (".byte", 1), (".word 1 +", 2)):
+                if width == 1 and v > 255:
+                    continue
+                if how == "label":
+                    src, val, skip = "%s: %s %s\n" % (name, d, name), 0o1000, 0
+                    if width == 1:
+                        continue
+                elif how == "before":
+                    src, val, skip = "%s = %o\n%s %s\n" % (name, v, d, name), v, 0
+                else:
+                    src, val, skip = "%s %s\n%s = %o\n" % (d, name, name, v), v, 0
+                if d.endswith("+"):
+                    val += 1
+                jobs.append((([("t.mac", src)],), {}))
+                meta.append((src, val & (0xFFFF if width == 2 else 0xFF), width))
+    outs = impl.pmap("assemble", jobs)
+    for (src, val, width), o in zip(meta, outs):
+        rep.add_eval()
+        rep.count("e2e:acc-named-data")
+        want = val.to_bytes(width, "little").hex()
+        if o["outcome"] != "ok" or o["code"] != want:
+            rep.violate("acc-named-data:" + src.replace("\n", "/"), "a symbol named like an accumulator used in a data directive does not yield its value",
+                        {"files": [["t.mac", src]], "expected_code": want, "impl": {k: o.get(k) for k in ("outcome", "code", "crash")}})
 
 
 # `.repeat 2 { insn }` around compound index expressions: both copies must be the same instruction
@@ -317,6 +361,7 @@ def explore(rep, br, tier, seed):
     for c in (cases[7], cases[len(cases) // 2], cases[-3]):
         rep.sample({"source": c.src, "operands": [IC.coq_operand(o) for o in c.ops], "impl": {k: c.res.get(k) for k in ("outcome", "code")}})
     judge_cases(rep, cases, "e2e")
+    acc_named_data(rep, rng)
     if tier == "thorough":
         rep.exhaustive_parts.append("every mnemonic x every operand form per position; full cross product of canonical forms for two-operand mnemonics")
     else:
@@ -347,6 +392,8 @@ def replay(data):
     r = impl.assemble([tuple(x) for x in inp["files"]])
     print("source:", inp["files"][0][1].strip().replace("\n", " / "))
     print("now:", {k: r.get(k) for k in ("outcome", "base", "code", "crash")})
+    if "expected_code" in inp:
+        return r["outcome"] == "ok" and r["code"] == inp["expected_code"]
     term = "(%s, [%s], %s, %s)" % (C.coq_str(inp["mnemonic"]), "; ".join(inp["operands"]), C.zlit(inp["address"]), IC.coq_obs(r))
     if "slice" in inp:
         c = SlicedCase(inp["mnemonic"], [], inp["address"])
